@@ -93,3 +93,164 @@ class RestrictedIterObservables(_Restricted):
         return [("post:yields-exactly-the-instance-trait-of-the-one-named-trait",
                  z3.And(y[0][1].t == self.ctrait(info["obj"], self.name), n.t == self.name, mode.t == 2 if isinstance(mode, VInt) else z3.BoolVal(False))),
                 ("post:the-wrapped-observer-is-not-asked", z3.BoolVal(not st.ghost.get("wrapped_calls", ())))]
+
+
+# ------------------------------------------------------------------------------------------------------------------
+NPATH = "traits/observation/_named_trait_observer.py"
+
+
+class _Named(Contract):
+    path = NPATH
+    properties = ("C08", "C09")
+    class_paths = (NPATH,)
+    overloads = ("default",)
+    assumptions = ("A-PY", "generator bodies run to exhaustion", "object_has_named_trait(object, name) is an opaque predicate (its body: isinstance CHasTraits and _trait(name, 0) is not None)")
+
+    def configure(self, cx, I, ov):
+        self.name = z3.String("trait_name")
+        self.optional, self.has = z3.Bool("optional"), z3.Bool("object_has_the_named_trait")
+        helper = z3.Function("helper_iter_objects", Val, z3.StringSort(), Val)
+        self.helper = helper
+        self.ctrait = z3.Function("instance_trait_of", Val, z3.StringSort(), Val)
+
+        def has_named(I2, a, kw, st, k):
+            o, n = a
+            ok = isinstance(o, VElem) and isinstance(n, VStr)
+            st = st.gset("asked", tuple(st.ghost.get("asked", ())) + ((o, n),))
+            return k(VBool(self.has), st)
+        cx.module_globals["object_has_named_trait"] = VFunc("opaque", name="object_has_named_trait", apply=has_named)
+
+        def iter_objects(I2, a, kw, st, k):
+            o, n = a
+            return k(VElem(helper(as_val(cx, o, st), n.t)), st)
+        cx.module_globals["iter_objects"] = VFunc("opaque", name="iter_objects", apply=iter_objects)
+
+        def _trait(I2, o, st, k):
+            def apply(I3, a, kw, s, kk):
+                n, mode = a
+                s = s.gset("trait_calls", tuple(s.ghost.get("trait_calls", ())) + ((n, mode),))
+                return kk(VElem(self.ctrait(o.t, n.t)), s)
+            return k(VFunc("opaque", name="_trait", apply=apply), st)
+        cx.elem_attrs["_trait"] = _trait
+
+    def setup(self, cx, I, ov):
+        st = St()
+        self_ref = VRef(cx.new_oid())
+        st = st.put(self_ref.oid, HObj("obj", None, "NamedTraitObserver", {"name": VStr(self.name), "optional": VBool(self.optional), "notify": VBool(z3.Bool("notify"))}))
+        obj = z3.Const("object", Val)
+        return st, [self_ref, VElem(obj)], {}, dict(obj=obj, witness={"optional": self.optional, "has trait": self.has})
+
+    def common(self, cx, info, kind, payload, st, what):
+        """the part shared by both generators: a missing trait is an error unless the observer is optional, in which case
+        nothing is yielded"""
+        y = st.ghost.get("yielded", ())
+        asked = st.ghost.get("asked", ())
+        out = [("post:the-question-is-about-this-object-and-this-name", z3.BoolVal(len(asked) == 1 and isinstance(asked[0][0], VElem)) if len(asked) != 1 else
+                z3.And(asked[0][0].t == info["obj"], asked[0][1].t == self.name))]
+        if kind == "raise":
+            out.append(("raise:only-ValueError-for-a-missing-trait-of-a-non-optional-observer",
+                        z3.And(z3.BoolVal(payload.cname == "ValueError"), z3.Not(self.has), z3.Not(self.optional))))
+            out.append(("raise:nothing-yielded-before", z3.BoolVal(len(y) == 0)))
+            return out, None
+        out.append(("post:completes-iff-the-trait-exists-or-the-observer-is-optional", z3.Or(self.has, self.optional)))
+        out.append(("post:%s-exactly-when-the-trait-exists" % what, z3.BoolVal(len(y) == 1) == self.has if len(y) <= 1 else z3.BoolVal(False)))
+        return out, y
+
+    def covers(self, cx, ov, info):
+        return [("exhausted", lambda k, p, s: k == "return"), ("missing", lambda k, p, s: k == "raise")]
+
+
+@register
+class NamedIterObservables(_Named):
+    """NamedTraitObserver.iter_observables: the instance trait (mode 2) of the one name, once; ValueError for a missing trait
+    unless optional (then nothing)."""
+    qualname = "NamedTraitObserver.iter_observables"
+
+    def post(self, cx, I, ov, info, kind, payload, st):
+        out, y = self.common(cx, info, kind, payload, st, "one-observable")
+        if y:
+            tc = st.ghost.get("trait_calls", ())
+            ok = y[0][0] == "item" and isinstance(y[0][1], VElem) and len(tc) == 1 and isinstance(tc[0][1], VInt)
+            out.append(("post:the-observable-is-the-INSTANCE-trait-of-the-name", z3.And(y[0][1].t == self.ctrait(info["obj"], self.name), tc[0][0].t == self.name, tc[0][1].t == 2) if ok else z3.BoolVal(False)))
+        return out
+
+
+@register
+class NamedIterObjects(_Named):
+    """NamedTraitObserver.iter_objects: what the helper gives for (object, name) -- the value stored in the instance dictionary,
+    unless it is one of the unobservable filled values -- and nothing else."""
+    qualname = "NamedTraitObserver.iter_objects"
+
+    def post(self, cx, I, ov, info, kind, payload, st):
+        out, y = self.common(cx, info, kind, payload, st, "the-helper's-values")
+        if y:
+            ok = y[0][0] == "from" and isinstance(y[0][1], VElem)
+            out.append(("post:yields-the-helper's-values-for-this-object-and-name", y[0][1].t == self.helper(info["obj"], self.name) if ok else z3.BoolVal(False)))
+        return out
+
+
+# ------------------------------------------------------------------------------------------------------------------
+HPATH = "traits/observation/_has_traits_helpers.py"
+
+
+@register
+class HelperIterObjects(Contract):
+    """iter_objects(object, name): yields the value stored under `name` in the instance dictionary -- WITHOUT evaluating a
+    default (a plain dictionary lookup) -- unless it is absent or one of the unobservable values (Undefined, Uninitialized,
+    None); then nothing."""
+    path = HPATH
+    qualname = "iter_objects"
+    properties = ("C08", "C10")
+    overloads = ("default",)
+    assumptions = ("A-PY", "object.__dict__.get(name, default) is the dictionary lookup: the stored value or the default",
+                   "UNOBSERVABLE_VALUES is read from the module on this run")
+
+    def configure(self, cx, I, ov):
+        import ast as _ast
+        from vc.pyvc import source
+        src, tree, funcs, classes = source.index_module(HPATH)
+        vals = None
+        for n in tree.body:
+            if isinstance(n, _ast.Assign) and isinstance(n.targets[0], _ast.Name) and n.targets[0].id == "UNOBSERVABLE_VALUES":
+                vals = [_ast.unparse(e) for e in n.value.elts]
+        self.unobservable = vals or []
+        consts = {"Undefined": cx.const("Undefined"), "Uninitialized": cx.const("Uninitialized"), "None": cx.const("None")}
+        cx.module_globals["Undefined"] = consts["Undefined"]
+        cx.module_globals["Uninitialized"] = consts["Uninitialized"]
+        cx.module_globals["UNOBSERVABLE_VALUES"] = VTuple([consts.get(v, VElem(z3.Const("unknown_" + v, Val))) for v in self.unobservable])
+        self.stored, self.present = z3.Const("stored_value", Val), z3.Bool("present_in_the_instance_dictionary")
+        self.name = z3.String("trait_name")
+
+        def dict_attr(I2, o, st, k):
+            def get(I3, a, kw, s, kk):
+                n, d = a
+                s = s.gset("lookups", tuple(s.ghost.get("lookups", ())) + (n,))
+                return I3.cx.branch(s, self.present, lambda s1: kk(VElem(self.stored), s1), lambda s2: kk(d, s2))
+            return k(VFunc("objdict-get-holder", name="__dict__", apply=None, get=VFunc("opaque", name="get", apply=get)), st)
+        cx.elem_attrs["__dict__"] = dict_attr
+
+        def getattr_hook(I2, obj, name, st, k):
+            if isinstance(obj, VFunc) and obj.kind == "objdict-get-holder" and name == "get":
+                return k(obj.meta["get"] if hasattr(obj, "meta") else obj.get, st)
+            return None
+        cx.getattr_hook = getattr_hook
+
+    def setup(self, cx, I, ov):
+        obj = z3.Const("object", Val)
+        return St(), [VElem(obj), VStr(self.name)], {}, dict(obj=obj, witness={"present": self.present})
+
+    def post(self, cx, I, ov, info, kind, payload, st):
+        if kind == "raise":
+            return [("exc-free", z3.BoolVal(False), dict(exception="%s %r" % (payload.cname or payload.sym, payload.origin)))]
+        y = st.ghost.get("yielded", ())
+        lk = st.ghost.get("lookups", ())
+        skip = z3.Or(z3.Not(self.present), *[self.stored == cx.const(v).t for v in ("Undefined", "Uninitialized", "None")])
+        out = [("lemma:the-unobservable-values-are-Undefined-Uninitialized-None", z3.BoolVal(sorted(self.unobservable) == ["None", "Undefined", "Uninitialized"])),
+               ("post:one-plain-dictionary-lookup-of-the-name-(no-default-is-evaluated)", z3.BoolVal(len(lk) == 1 and isinstance(lk[0], VStr)) if len(lk) != 1 else lk[0].t == self.name),
+               ("post:yields-nothing-exactly-for-an-absent-or-unobservable-value", z3.BoolVal(len(y) == 0) == skip if len(y) <= 1 else z3.BoolVal(False))]
+        if len(y) == 1:
+            out.append(("post:yields-the-stored-value-itself", as_val(cx, y[0][1], st) == self.stored if y[0][0] == "item" else z3.BoolVal(False)))
+        return out
+
+    def covers(self, cx, ov, info):
+        return [("exhausted", lambda k, p, s: k == "return")]
